@@ -410,8 +410,16 @@ pub fn process_cpu_ms() -> u64 {
     cpu_ms(libc::CLOCK_PROCESS_CPUTIME_ID)
 }
 
+// CPU time this thread has spent in *user* mode. Time the kernel spends on the thread's behalf (page
+// faults of a 2 GiB stack and of large allocations while sixteen workers and whatever else runs on the
+// machine compete for memory) is left out: at a load average of 70 it was seen to push rungs that need a
+// few seconds over a 40 s cap. The parser's own work — the thing a cap is meant to bound — is user time.
 pub fn thread_cpu_s() -> f64 {
-    cpu_ms(libc::CLOCK_THREAD_CPUTIME_ID) as f64 / 1000.0
+    let mut ru: libc::rusage = unsafe { std::mem::zeroed() };
+    if unsafe { libc::getrusage(libc::RUSAGE_THREAD, &mut ru) } != 0 {
+        return cpu_ms(libc::CLOCK_THREAD_CPUTIME_ID) as f64 / 1000.0;
+    }
+    ru.ru_utime.tv_sec as f64 + ru.ru_utime.tv_usec as f64 / 1e6
 }
 
 fn cpu_ms(clock: libc::clockid_t) -> u64 {
